@@ -7,6 +7,8 @@
 import Bkl
 import BklProofs.Lemmas.Output
 import BklProofs.Lemmas.OutputSel
+import BklProofs.Lemmas.C11Spec
+import BklProofs.C07
 namespace Bkl
 
 /-! ## Specification functions -/
@@ -673,5 +675,1505 @@ example : emit [.map [("a", .map [("$output", .bool true), ("x", .int 1), ("y", 
                       ("b", .list [.map [("$output", .bool true)], .str "$$z",
                                    .map [("k", .map [("$output", .bool false), ("h", .int 2)])]])]] =
     .ok [.map [("x", .int 1)], .list [.str "$z", .map []]] := by decide
+
+/-! # Specification of selection against independent definitions
+
+  Paths are lists of `PathElem` (`.key k` = map key, `.idx i` = list index), always relative to
+  the ORIGINAL document (before any marker is removed). -/
+
+/-- the subtree at a path; `none` if the path does not exist -/
+def subtreeAt : Val → List PathElem → Option Val
+  | v, [] => some v
+  | .map kvs, .key k :: p =>
+    match fget kvs k with
+    | some c => subtreeAt c p
+    | none => none
+  | .list xs, .idx i :: p =>
+    match xs[i]? with
+    | some c => subtreeAt c p
+    | none => none
+  | _, _ :: _ => none
+
+/-- a container that carries the selection marker: a map with `$output: true`, a list with a
+    `{$output: true}` entry -/
+def carriesTrue : Val → Bool
+  | .map kvs => fhasBool kvs "$output" true
+  | .list xs => hasListMapBool xs "$output" true
+  | _ => false
+
+mutual
+/-- Paths of the selected containers, in output order.  A map: itself first (if marked), then
+    its children in key order.  A list: its children in index order, then itself (if marked).
+    The `{$output: true}` entries of a list ARE the list's marker: they are not visited. -/
+def selectedPaths : Val → List (List PathElem)
+  | .map kvs => (if fhasBool kvs "$output" true then [[]] else []) ++ selectedPathsFields kvs
+  | .list xs => selectedPathsList xs 0 ++ (if hasListMapBool xs "$output" true then [[]] else [])
+  | _ => []
+/-- entries of a list, the head having index `i` -/
+def selectedPathsList : List Val → Nat → List (List PathElem)
+  | [], _ => []
+  | x :: xs, i =>
+    (if isTrueMarker x then [] else (selectedPaths x).map (PathElem.idx i :: ·)) ++
+      selectedPathsList xs (i + 1)
+def selectedPathsFields : Fields → List (List PathElem)
+  | [] => []
+  | (k, v) :: rest => (selectedPaths v).map (PathElem.key k :: ·) ++ selectedPathsFields rest
+end
+
+mutual
+/-- The value with every selection marker removed: the key `$output` of every map carrying
+    `$output: true`, and every `{$output: true}` entry of a list.  Nothing else changes; in
+    particular a selected subtree STAYS in its parent (stripped). -/
+def stripOut : Val → Val
+  | .map kvs =>
+    .map (if fhasBool kvs "$output" true then fdel (stripOutFields kvs) "$output"
+          else stripOutFields kvs)
+  | .list xs => .list (stripOutList xs)
+  | v => v
+def stripOutList : List Val → List Val
+  | [] => []
+  | x :: xs => if isTrueMarker x then stripOutList xs else stripOut x :: stripOutList xs
+def stripOutFields : Fields → Fields
+  | [] => []
+  | (k, v) :: rest => (k, stripOut v) :: stripOutFields rest
+end
+
+/-- a list entry with `$output: b` AND other keys -/
+def isBadMarker (b : Bool) : Val → Bool
+  | .map m => fhasBool m "$output" b && decide ((fdel m "$output").length > 0)
+  | _ => false
+
+mutual
+/-- some list (outside the consumed marker entries) has a marker entry with extra keys: the only
+    way `findOutputs` fails -/
+def hasBadMarker : Val → Bool
+  | .map kvs => hasBadMarkerFields kvs
+  | .list xs => hasBadMarkerList xs
+  | _ => false
+def hasBadMarkerList : List Val → Bool
+  | [] => false
+  | x :: xs => (if isTrueMarker x then isBadMarker true x else hasBadMarker x) || hasBadMarkerList xs
+def hasBadMarkerFields : Fields → Bool
+  | [] => false
+  | (_, v) :: rest => hasBadMarker v || hasBadMarkerFields rest
+end
+
+mutual
+/-- the stripped selected subtrees by direct recursion (auxiliary; see `C11_aux_selDocs_paths`) -/
+def selDocs : Val → List Val
+  | .map kvs => (if fhasBool kvs "$output" true then [stripOut (.map kvs)] else []) ++ selDocsFields kvs
+  | .list xs => selDocsList xs ++ (if hasListMapBool xs "$output" true then [stripOut (.list xs)] else [])
+  | _ => []
+def selDocsList : List Val → List Val
+  | [] => []
+  | x :: xs => (if isTrueMarker x then [] else selDocs x) ++ selDocsList xs
+def selDocsFields : Fields → List Val
+  | [] => []
+  | (_, v) :: rest => selDocs v ++ selDocsFields rest
+end
+
+/-- running example: a marked root map; a marked list (two marker entries) holding a marked map
+    one level down; an unmarked map holding a marked map -/
+def c11_ex : Val :=
+  .map [("$output", .bool true),
+        ("a", .list [.map [("$output", .bool true)],
+                     .map [("m", .map [("$output", .bool true), ("x", .int 1)])],
+                     .map [("$output", .bool true)], .int 2]),
+        ("b", .map [("c", .map [("$output", .bool true), ("y", .null)])])]
+
+example : selectedPaths c11_ex =
+      [[], [.key "a", .idx 1, .key "m"], [.key "a"], [.key "b", .key "c"]] ∧
+    stripOut c11_ex =
+      .map [("a", .list [.map [("m", .map [("x", .int 1)])], .int 2]),
+            ("b", .map [("c", .map [("y", .null)])])] ∧
+    subtreeAt c11_ex [.key "a", .idx 1, .key "m"] = some (.map [("$output", .bool true), ("x", .int 1)]) ∧
+    subtreeAt c11_ex [.key "a", .idx 7] = none := by decide
+
+mutual
+theorem C11_findOutputs_eq : ∀ (v : Val), v.wfB = true →
+    findOutputs v =
+      if hasBadMarker v then .error .extraKeys else .ok (stripOut v, selDocs v)
+  | .map kvs, hw => by
+    simp only [Val.wfB, Bool.and_eq_true] at hw
+    rw [os_findOutputs_map_eq, C11_findOutputs_eq_fields kvs _ hw.2
+      (fun hs => o_fhasBool_sorted_mem kvs _ _ hw.1 hs)]
+    simp only [hasBadMarker]
+    by_cases hb : hasBadMarkerFields kvs = true
+    · simp only [hb, if_true]
+    · simp only [hb]
+      cases hs : fhasBool kvs "$output" true <;>
+        simp only [Bool.false_eq_true, if_false, if_true, stripOut, selDocs, hs, List.nil_append,
+          List.singleton_append]
+  | .list xs, hw => by
+    simp only [Val.wfB] at hw
+    rw [os_findOutputs_list_eq, C11_findOutputs_eq_list xs _ hw id]
+    simp only [hasBadMarker]
+    by_cases hb : hasBadMarkerList xs = true
+    · simp only [hb, if_true]
+    · simp only [hb]
+      cases hs : hasListMapBool xs "$output" true <;>
+        simp only [Bool.false_eq_true, if_false, if_true, stripOut, selDocs, hs, List.append_nil]
+  | .null, _ | .bool _, _ | .int _, _ | .flt _, _ | .str _, _ => rfl
+theorem C11_findOutputs_eq_list : ∀ (xs : List Val) (skip : Bool), Val.wfListB xs = true →
+    (hasListMapBool xs "$output" true = true → skip = true) →
+    findOutputsList xs skip =
+      if hasBadMarkerList xs then .error .extraKeys else .ok (stripOutList xs, selDocsList xs)
+  | [], skip, _, _ => rfl
+  | x :: xs, skip, hw, hinv => by
+    simp only [Val.wfListB, Bool.and_eq_true] at hw
+    rw [o_hasListMapBool_cons] at hinv
+    have hinv' : hasListMapBool xs "$output" true = true → skip = true :=
+      fun hx => hinv (by simp [hx])
+    have ih2 := C11_findOutputs_eq_list xs skip hw.2 hinv'
+    cases hm : isTrueMarker x with
+    | true =>
+      have hs : skip = true := hinv (by rw [← C11_aux_isTrueMarker_eq, hm]; rfl)
+      subst hs
+      cases x with
+      | map m =>
+        simp only [isTrueMarker] at hm
+        rw [os_findOutputsList_marker_eq m xs hm, ih2]
+        simp only [hasBadMarkerList, isTrueMarker, hm, if_true, isBadMarker, Bool.true_and,
+          stripOutList, selDocsList, List.nil_append]
+        by_cases hl : (fdel m "$output").length > 0
+        · simp only [hl, if_true, decide_true, Bool.true_or]
+        · simp only [hl, if_false, decide_false, Bool.false_or]
+      | _ => cases hm
+    | false =>
+      have hc : ¬(skip = true ∧ o_isMarker "$output" true x = true) := by
+        rw [← C11_aux_isTrueMarker_eq, hm]; exact fun h => nomatch h.2
+      rw [os_findOutputsList_step_eq x xs skip hc, C11_findOutputs_eq x hw.1, ih2]
+      simp only [hasBadMarkerList, hm, Bool.false_eq_true, if_false, stripOutList, selDocsList]
+      by_cases hb1 : hasBadMarker x = true
+      · simp only [hb1, if_true, Bool.true_or]
+      · by_cases hb2 : hasBadMarkerList xs = true
+        · simp only [hb1, hb2, if_true, if_false, Bool.or_true, Bool.false_eq_true]
+        · simp only [hb1, hb2, if_false, Bool.or_self, Bool.false_eq_true]
+theorem C11_findOutputs_eq_fields : ∀ (kvs : Fields) (skip : Bool), Val.wfFieldsB kvs = true →
+    (skip = true → ∀ kv ∈ kvs, kv.1 = "$output" → kv.2 = .bool true) →
+    findOutputsFields kvs skip =
+      if hasBadMarkerFields kvs then .error .extraKeys
+      else .ok (if skip then fdel (stripOutFields kvs) "$output" else stripOutFields kvs,
+                selDocsFields kvs)
+  | [], skip, _, _ => by cases skip <;> rfl
+  | (k, v) :: rest, skip, hw, hinv => by
+    simp only [Val.wfFieldsB, Bool.and_eq_true] at hw
+    have hinv' : skip = true → ∀ kv ∈ rest, kv.1 = "$output" → kv.2 = .bool true :=
+      fun hs kv hm => hinv hs kv (List.mem_cons_of_mem _ hm)
+    have ih2 := C11_findOutputs_eq_fields rest skip hw.2 hinv'
+    by_cases hc : skip = true ∧ k = "$output"
+    · have hv : v = .bool true := hinv hc.1 (k, v) List.mem_cons_self hc.2
+      rw [os_findOutputsFields_skip_eq k v rest skip hc, ih2]
+      obtain ⟨rfl, rfl⟩ := hc
+      subst hv
+      simp only [hasBadMarkerFields, hasBadMarker, Bool.false_or, if_true, stripOutFields, fdel,
+        selDocsFields, selDocs, List.nil_append]
+    · rw [os_findOutputsFields_step_eq k v rest skip hc, C11_findOutputs_eq v hw.1, ih2]
+      simp only [hasBadMarkerFields, stripOutFields, selDocsFields]
+      by_cases hb1 : hasBadMarker v = true
+      · simp only [hb1, if_true, Bool.true_or]
+      · by_cases hb2 : hasBadMarkerFields rest = true
+        · simp only [hb1, hb2, if_true, if_false, Bool.or_true, Bool.false_eq_true]
+        · simp only [hb1, hb2, if_false, Bool.or_self, Bool.false_eq_true]
+          cases skip with
+          | false => rfl
+          | true =>
+            have hk : k ≠ "$output" := fun hk => hc ⟨rfl, hk⟩
+            simp only [if_true, fdel, hk, if_false]
+end
+
+example : c11_ex.wfB = true ∧ hasBadMarker c11_ex = false := by decide
+example : hasBadMarker (.list [.map [("$output", .bool true), ("x", .int 1)]]) = true ∧
+    findOutputs (.list [.map [("$output", .bool true), ("x", .int 1)]]) = .error .extraKeys := by
+  decide
+
+theorem C11_aux_subtreeAt_key (kvs : Fields) (k : String) (c : Val) (p : List PathElem)
+    (h : fget kvs k = some c) : subtreeAt (.map kvs) (.key k :: p) = subtreeAt c p := by
+  simp only [subtreeAt, h]
+
+theorem C11_aux_subtreeAt_idx (xs : List Val) (i : Nat) (c : Val) (p : List PathElem)
+    (h : xs[i]? = some c) : subtreeAt (.list xs) (.idx i :: p) = subtreeAt c p := by
+  simp only [subtreeAt, h]
+
+mutual
+/-- the direct recursion `selDocs` lists the stripped subtrees at `selectedPaths`, in order -/
+theorem C11_aux_selDocs_paths : ∀ (v : Val), v.wfB = true →
+    (selectedPaths v).map (fun p => (subtreeAt v p).map stripOut) = (selDocs v).map some
+  | .map kvs, hw => by
+    simp only [Val.wfB, Bool.and_eq_true] at hw
+    have ih := C11_aux_selDocs_paths_fields kvs kvs hw.2
+      (fun kv hm => o_fget_of_mem_sorted kvs kv.1 kv.2 hw.1 hm)
+    simp only [selectedPaths, selDocs, List.map_append, ih]
+    cases fhasBool kvs "$output" true <;> rfl
+  | .list xs, hw => by
+    simp only [Val.wfB] at hw
+    have ih := C11_aux_selDocs_paths_list xs xs 0 hw (fun j => by simp)
+    simp only [selectedPaths, selDocs, List.map_append, ih]
+    cases hasListMapBool xs "$output" true <;> rfl
+  | .null, _ | .bool _, _ | .int _, _ | .flt _, _ | .str _, _ => rfl
+theorem C11_aux_selDocs_paths_list : ∀ (all rest : List Val) (i : Nat),
+    Val.wfListB rest = true → (∀ j, rest[j]? = all[i + j]?) →
+    (selectedPathsList rest i).map (fun p => (subtreeAt (.list all) p).map stripOut) =
+      (selDocsList rest).map some
+  | _, [], _, _, _ => rfl
+  | all, x :: xs, i, hw, hidx => by
+    simp only [Val.wfListB, Bool.and_eq_true] at hw
+    have hx : all[i]? = some x := by have := hidx 0; simpa using this.symm
+    have ih2 := C11_aux_selDocs_paths_list all xs (i + 1) hw.2 (fun j => by
+      have := hidx (j + 1)
+      rw [List.getElem?_cons_succ] at this
+      rw [this]; congr 1; omega)
+    simp only [selectedPathsList, selDocsList, List.map_append, ih2]
+    congr 1
+    cases isTrueMarker x with
+    | true => rfl
+    | false =>
+      simp only [Bool.false_eq_true, if_false, List.map_map]
+      rw [← C11_aux_selDocs_paths x hw.1]
+      apply List.map_congr_left
+      intro p _
+      simp only [Function.comp, C11_aux_subtreeAt_idx all i x p hx]
+theorem C11_aux_selDocs_paths_fields : ∀ (all rest : Fields),
+    Val.wfFieldsB rest = true → (∀ kv ∈ rest, fget all kv.1 = some kv.2) →
+    (selectedPathsFields rest).map (fun p => (subtreeAt (.map all) p).map stripOut) =
+      (selDocsFields rest).map some
+  | _, [], _, _ => rfl
+  | all, (k, v) :: rest, hw, hget => by
+    simp only [Val.wfFieldsB, Bool.and_eq_true] at hw
+    have hk : fget all k = some v := hget (k, v) List.mem_cons_self
+    have ih2 := C11_aux_selDocs_paths_fields all rest hw.2
+      (fun kv hm => hget kv (List.mem_cons_of_mem _ hm))
+    simp only [selectedPathsFields, selDocsFields, List.map_append, ih2, List.map_map]
+    congr 1
+    rw [← C11_aux_selDocs_paths v hw.1]
+    apply List.map_congr_left
+    intro p _
+    simp only [Function.comp, C11_aux_subtreeAt_key all k v p hk]
+end
+
+/-- **Selection, specified.**  When `findOutputs` succeeds on a well-formed tree, the parent
+    document is the tree with all selection markers removed (selected subtrees stay in it), and
+    the selected documents are exactly the (stripped) subtrees at `selectedPaths v`: every
+    path exists, each is listed once, in the documented order. -/
+theorem C11_selected_spec (v v' : Val) (outs : List Val) (hw : v.WF)
+    (h : findOutputs v = .ok (v', outs)) :
+    v' = stripOut v ∧
+    outs.map some = (selectedPaths v).map (fun p => (subtreeAt v p).map stripOut) := by
+  rw [C11_findOutputs_eq v hw] at h
+  split at h
+  · cases h
+  · cases h
+    exact ⟨rfl, (C11_aux_selDocs_paths v hw).symm⟩
+
+example : c11_ex.wfB = true ∧
+    findOutputs c11_ex = .ok (stripOut c11_ex,
+      [stripOut c11_ex, .map [("x", .int 1)], .list [.map [("m", .map [("x", .int 1)])], .int 2],
+       .map [("y", .null)]]) ∧
+    (selectedPaths c11_ex).map (fun p => (subtreeAt c11_ex p).map stripOut) =
+      [some (stripOut c11_ex), some (.map [("x", .int 1)]),
+       some (.list [.map [("m", .map [("x", .int 1)])], .int 2]), some (.map [("y", .null)])] := by
+  decide
+
+/-- well-formedness is needed (same counterexample as for `C11_selected_count_partial`): the
+    second `$output` entry is skipped together with the marker -/
+example : ∃ v v' outs, findOutputs v = .ok (v', outs) ∧ outs.length ≠ (selectedPaths v).length :=
+  ⟨.map [("$output", .bool true), ("$output", .map [("$output", .bool true)])], .map [], [.map []],
+    by decide, by decide⟩
+
+/-! ## `selectedPaths` is exactly the set of marked containers -/
+
+/-- the path exists and does not enter a `{$output: true}` entry of a list (those entries are
+    consumed as the list's marker) -/
+def liveAt : Val → List PathElem → Bool
+  | _, [] => true
+  | .map kvs, .key k :: p =>
+    match fget kvs k with
+    | some c => liveAt c p
+    | none => false
+  | .list xs, .idx i :: p =>
+    match xs[i]? with
+    | some c => !isTrueMarker c && liveAt c p
+    | none => false
+  | _, _ :: _ => false
+
+theorem C11_aux_mem_selectedPathsList (p : List PathElem) : ∀ (xs : List Val) (i : Nat),
+    p ∈ selectedPathsList xs i ↔
+      ∃ j c q, p = .idx (i + j) :: q ∧ xs[j]? = some c ∧ isTrueMarker c = false ∧
+        q ∈ selectedPaths c
+  | [], i => by simp [selectedPathsList]
+  | x :: xs, i => by
+    simp only [selectedPathsList, List.mem_append, C11_aux_mem_selectedPathsList p xs (i + 1)]
+    constructor
+    · rintro (h | ⟨j, c, q, rfl, hc, hm, hq⟩)
+      · cases hm : isTrueMarker x with
+        | true => simp [hm] at h
+        | false =>
+          simp only [hm, Bool.false_eq_true, if_false, List.mem_map] at h
+          obtain ⟨q, hq, rfl⟩ := h
+          exact ⟨0, x, q, rfl, rfl, hm, hq⟩
+      · exact ⟨j + 1, c, q, by congr 2; omega, by simpa using hc, hm, hq⟩
+    · rintro ⟨j, c, q, rfl, hc, hm, hq⟩
+      cases j with
+      | zero =>
+        left
+        simp only [List.getElem?_cons_zero, Option.some.injEq] at hc
+        subst hc
+        simp only [hm, Bool.false_eq_true, if_false, List.mem_map]
+        exact ⟨q, hq, rfl⟩
+      | succ j =>
+        right
+        exact ⟨j, c, q, by congr 2; omega, by simpa using hc, hm, hq⟩
+
+theorem C11_aux_mem_selectedPathsFields (p : List PathElem) : ∀ (kvs : Fields),
+    p ∈ selectedPathsFields kvs ↔
+      ∃ k c q, p = .key k :: q ∧ (k, c) ∈ kvs ∧ q ∈ selectedPaths c
+  | [] => by simp [selectedPathsFields]
+  | (k, v) :: rest => by
+    simp only [selectedPathsFields, List.mem_append, C11_aux_mem_selectedPathsFields p rest,
+      List.mem_map, List.mem_cons]
+    constructor
+    · rintro (⟨q, hq, rfl⟩ | ⟨k', c, q, rfl, hc, hq⟩)
+      · exact ⟨k, v, q, rfl, Or.inl rfl, hq⟩
+      · exact ⟨k', c, q, rfl, Or.inr hc, hq⟩
+    · rintro ⟨k', c, q, rfl, hc | hc, hq⟩
+      · cases hc; exact Or.inl ⟨q, hq, rfl⟩
+      · exact Or.inr ⟨k', c, q, rfl, hc, hq⟩
+
+/-- **exactly the marked subtrees**: a path is listed iff it leads (without entering a consumed
+    marker entry) to a map carrying `$output: true` or a list carrying a `{$output: true}` entry -/
+theorem C11_selectedPaths_mem : ∀ (p : List PathElem) (v : Val), v.WF →
+    (p ∈ selectedPaths v ↔
+      liveAt v p = true ∧ ∃ t, subtreeAt v p = some t ∧ carriesTrue t = true)
+  | [], v, _ => by
+    cases v with
+    | map kvs =>
+      have : [] ∉ selectedPathsFields kvs := by
+        rw [C11_aux_mem_selectedPathsFields]; rintro ⟨_, _, _, h, _⟩; cases h
+      cases hs : fhasBool kvs "$output" true <;>
+        simp [selectedPaths, liveAt, subtreeAt, carriesTrue, hs, this]
+    | list xs =>
+      have : [] ∉ selectedPathsList xs 0 := by
+        rw [C11_aux_mem_selectedPathsList]; rintro ⟨_, _, _, h, _⟩; cases h
+      cases hs : hasListMapBool xs "$output" true <;>
+        simp [selectedPaths, liveAt, subtreeAt, carriesTrue, hs, this]
+    | _ => simp [selectedPaths, liveAt, subtreeAt, carriesTrue]
+  | .key k :: q, v, hw => by
+    cases v with
+    | map kvs =>
+      have hw' := hw
+      simp only [Val.WF, Val.wfB, Bool.and_eq_true] at hw'
+      have hne : (PathElem.key k :: q) ∉ (if fhasBool kvs "$output" true then [[]] else []) := by
+        split <;> simp
+      simp only [selectedPaths, List.mem_append, hne, false_or, C11_aux_mem_selectedPathsFields]
+      constructor
+      · rintro ⟨k', c, q', heq, hc, hq⟩
+        cases heq
+        have hg := o_fget_of_mem_sorted kvs k c hw'.1 hc
+        have hcw : c.WF := wfFieldsB_iff.1 hw'.2 (k, c) hc
+        simpa only [liveAt, subtreeAt, hg] using (C11_selectedPaths_mem q c hcw).1 hq
+      · intro h
+        cases hg : fget kvs k with
+        | none => simp [liveAt, hg] at h
+        | some c =>
+          have hc := o_mem_of_fget kvs k c hg
+          have hcw : c.WF := wfFieldsB_iff.1 hw'.2 (k, c) hc
+          simp only [liveAt, subtreeAt, hg] at h
+          exact ⟨k, c, q, rfl, hc, (C11_selectedPaths_mem q c hcw).2 h⟩
+    | list xs =>
+      have h1 : (PathElem.key k :: q) ∉ selectedPaths (.list xs) := by
+        simp only [selectedPaths, List.mem_append, C11_aux_mem_selectedPathsList]
+        rintro (⟨_, _, _, h, _⟩ | h)
+        · cases h
+        · split at h <;> simp at h
+      simp [h1, liveAt]
+    | _ => simp [selectedPaths, liveAt]
+  | .idx i :: q, v, hw => by
+    cases v with
+    | list xs =>
+      have hw' := hw
+      simp only [Val.WF, Val.wfB] at hw'
+      have hne : (PathElem.idx i :: q) ∉ (if hasListMapBool xs "$output" true then [[]] else []) := by
+        split <;> simp
+      simp only [selectedPaths, List.mem_append, hne, or_false, C11_aux_mem_selectedPathsList]
+      constructor
+      · rintro ⟨j, c, q', heq, hc, hm, hq⟩
+        cases heq
+        have hcw : c.WF := wfListB_iff.1 hw' c (List.mem_of_getElem? hc)
+        simp only [Nat.zero_add, liveAt, subtreeAt, hc, hm, Bool.not_false, Bool.true_and]
+        exact (C11_selectedPaths_mem q c hcw).1 hq
+      · intro h
+        cases hc : xs[i]? with
+        | none => simp [liveAt, hc] at h
+        | some c =>
+          have hcw : c.WF := wfListB_iff.1 hw' c (List.mem_of_getElem? hc)
+          simp only [liveAt, subtreeAt, hc, Bool.and_eq_true, Bool.not_eq_true'] at h
+          exact ⟨i, c, q, by simp, hc, h.1.1, (C11_selectedPaths_mem q c hcw).2 ⟨h.1.2, h.2⟩⟩
+    | map kvs =>
+      have h1 : (PathElem.idx i :: q) ∉ selectedPaths (.map kvs) := by
+        simp only [selectedPaths, List.mem_append, C11_aux_mem_selectedPathsFields]
+        rintro (h | ⟨_, _, _, h, _⟩)
+        · split at h <;> simp at h
+        · cases h
+      simp [h1, liveAt]
+    | _ => simp [selectedPaths, liveAt]
+
+example : liveAt c11_ex [.key "a", .idx 1, .key "m"] = true ∧
+    liveAt c11_ex [.key "a", .idx 0] = false ∧
+    (subtreeAt c11_ex [.key "a", .idx 0]).map carriesTrue = some true ∧
+    [PathElem.key "a", .idx 0] ∉ selectedPaths c11_ex := by decide
+
+mutual
+/-- **each once**: no path is listed twice -/
+theorem C11_selectedPaths_nodup : ∀ (v : Val), v.wfB = true → (selectedPaths v).Nodup
+  | .map kvs, hw => by
+    simp only [Val.wfB, Bool.and_eq_true] at hw
+    simp only [selectedPaths]
+    refine List.nodup_append.2 ⟨by split <;> simp, C11_selectedPaths_nodup_fields kvs hw.1 hw.2, ?_⟩
+    intro a ha b hb hab
+    subst hab
+    rw [C11_aux_mem_selectedPathsFields] at hb
+    obtain ⟨_, _, _, rfl, _⟩ := hb
+    split at ha <;> simp at ha
+  | .list xs, hw => by
+    simp only [Val.wfB] at hw
+    simp only [selectedPaths]
+    refine List.nodup_append.2 ⟨C11_selectedPaths_nodup_list xs 0 hw, by split <;> simp, ?_⟩
+    intro a ha b hb hab
+    subst hab
+    rw [C11_aux_mem_selectedPathsList] at ha
+    obtain ⟨_, _, _, rfl, _⟩ := ha
+    split at hb <;> simp at hb
+  | .null, _ | .bool _, _ | .int _, _ | .flt _, _ | .str _, _ => List.nodup_nil
+theorem C11_selectedPaths_nodup_list : ∀ (xs : List Val) (i : Nat), Val.wfListB xs = true →
+    (selectedPathsList xs i).Nodup
+  | [], _, _ => List.nodup_nil
+  | x :: xs, i, hw => by
+    simp only [Val.wfListB, Bool.and_eq_true] at hw
+    simp only [selectedPathsList]
+    refine List.nodup_append.2 ⟨?_, C11_selectedPaths_nodup_list xs (i + 1) hw.2, ?_⟩
+    · split
+      · exact List.nodup_nil
+      · exact os_nodup_map_cons _ _ (C11_selectedPaths_nodup x hw.1)
+    · intro a ha b hb hab
+      subst hab
+      rw [C11_aux_mem_selectedPathsList] at hb
+      obtain ⟨j, _, _, rfl, _⟩ := hb
+      split at ha
+      · cases ha
+      · simp only [List.mem_map] at ha
+        obtain ⟨_, _, heq⟩ := ha
+        have := (List.cons.inj heq).1
+        simp only [PathElem.idx.injEq] at this
+        omega
+theorem C11_selectedPaths_nodup_fields : ∀ (kvs : Fields), Fields.sortedKeysB kvs = true →
+    Val.wfFieldsB kvs = true → (selectedPathsFields kvs).Nodup
+  | [], _, _ => List.nodup_nil
+  | (k, v) :: rest, hs, hw => by
+    simp only [Val.wfFieldsB, Bool.and_eq_true] at hw
+    simp only [selectedPathsFields]
+    refine List.nodup_append.2 ⟨os_nodup_map_cons _ _ (C11_selectedPaths_nodup v hw.1),
+      C11_selectedPaths_nodup_fields rest (o_sorted_tail hs) hw.2, ?_⟩
+    intro a ha b hb hab
+    subst hab
+    rw [C11_aux_mem_selectedPathsFields] at hb
+    obtain ⟨k', c, _, rfl, hc, _⟩ := hb
+    simp only [List.mem_map] at ha
+    obtain ⟨_, _, heq⟩ := ha
+    have hk := (List.cons.inj heq).1
+    simp only [PathElem.key.injEq] at hk
+    have hlt := o_sorted_head_lt k v rest hs (k', c) hc
+    rw [hk] at hlt
+    exact String.lt_irrefl _ hlt
+end
+
+/-! # Specification of hiding against independent definitions -/
+
+mutual
+/-- the value with every hidden child (a map with `$output: false`, a list with a
+    `{$output: false}` entry, a `null`; see `hidden`) removed from its parent, recursively.
+    The root itself is not examined. -/
+def prune : Val → Val
+  | .map kvs => .map (pruneFields kvs)
+  | .list xs => .list (pruneList xs)
+  | v => v
+def pruneList : List Val → List Val
+  | [] => []
+  | x :: xs => if hidden x then pruneList xs else prune x :: pruneList xs
+def pruneFields : Fields → Fields
+  | [] => []
+  | (k, v) :: rest => if hidden v then pruneFields rest else (k, prune v) :: pruneFields rest
+end
+
+mutual
+/-- the only failure of `filterOutput`: a hidden list that is reached (not below another hidden
+    node) has a `{$output: false}` entry with extra keys -/
+def filterFails : Val → Bool
+  | .map kvs => !fhasBool kvs "$output" false && filterFailsFields kvs
+  | .list xs =>
+    if hasListMapBool xs "$output" false then xs.any (isBadMarker false) else filterFailsList xs
+  | _ => false
+def filterFailsList : List Val → Bool
+  | [] => false
+  | x :: xs => filterFails x || filterFailsList xs
+def filterFailsFields : Fields → Bool
+  | [] => false
+  | (_, v) :: rest => filterFails v || filterFailsFields rest
+end
+
+theorem C11_aux_isBadMarker_eq (b : Bool) : isBadMarker b = os_isExtra "$output" b := by
+  funext x; cases x <;> rfl
+
+mutual
+/-- **Hiding, specified** (no well-formedness needed): `filterOutput` fails exactly on
+    `filterFails`; otherwise a hidden root yields nothing and any other root yields `prune`. -/
+theorem C11_filterOutput_eq : ∀ (v : Val),
+    filterOutput v =
+      if filterFails v then .error .extraKeys
+      else .ok (if hidden v then none else some (prune v))
+  | .map kvs => by
+    rw [os_filterOutput_map_eq, C11_filterOutput_eq_fields kvs]
+    simp only [filterFails, hidden, prune]
+    by_cases hh : fhasBool kvs "$output" false = true
+    · simp only [hh, if_true, Bool.not_true, Bool.false_and, Bool.false_eq_true, if_false]
+    · simp only [hh, Bool.false_eq_true, if_false, Bool.not_false, Bool.true_and]
+      by_cases hb : filterFailsFields kvs = true
+      · simp only [hb, if_true]
+      · simp only [hb, Bool.false_eq_true, if_false]
+  | .list xs => by
+    rw [os_filterOutput_list_eq, C11_filterOutput_eq_list xs]
+    simp only [filterFails, hidden, prune, C11_aux_isBadMarker_eq]
+    by_cases hh : hasListMapBool xs "$output" false = true
+    · simp only [hh, if_true]
+    · simp only [hh, Bool.false_eq_true, if_false]
+      by_cases hb : filterFailsList xs = true
+      · simp only [hb, if_true]
+      · simp only [hb, Bool.false_eq_true, if_false]
+  | .null => rfl
+  | .bool _ | .int _ | .flt _ | .str _ => rfl
+theorem C11_filterOutput_eq_list : ∀ (xs : List Val),
+    filterOutputList xs =
+      if filterFailsList xs then .error .extraKeys else .ok (pruneList xs)
+  | [] => rfl
+  | x :: xs => by
+    rw [os_filterOutputList_cons_eq, C11_filterOutput_eq x, C11_filterOutput_eq_list xs]
+    simp only [filterFailsList, pruneList]
+    by_cases hb1 : filterFails x = true
+    · simp only [hb1, if_true, Bool.true_or]
+    · by_cases hb2 : filterFailsList xs = true
+      · simp only [hb1, hb2, Bool.false_eq_true, if_false, if_true, Bool.or_true]
+        cases hidden x <;> rfl
+      · simp only [hb1, hb2, Bool.false_eq_true, if_false, Bool.or_self]
+        cases hidden x <;> rfl
+theorem C11_filterOutput_eq_fields : ∀ (kvs : Fields),
+    filterOutputFields kvs =
+      if filterFailsFields kvs then .error .extraKeys else .ok (pruneFields kvs)
+  | [] => rfl
+  | (k, v) :: rest => by
+    rw [os_filterOutputFields_cons_eq, C11_filterOutput_eq v, C11_filterOutput_eq_fields rest]
+    simp only [filterFailsFields, pruneFields]
+    by_cases hb1 : filterFails v = true
+    · simp only [hb1, if_true, Bool.true_or]
+    · by_cases hb2 : filterFailsFields rest = true
+      · simp only [hb1, hb2, Bool.false_eq_true, if_false, if_true, Bool.or_true]
+        cases hidden v <;> rfl
+      · simp only [hb1, hb2, Bool.false_eq_true, if_false, Bool.or_self]
+        cases hidden v <;> rfl
+end
+
+example : filterFails (.map [("a", .list [.map [("$output", .bool false), ("x", .int 1)]])]) = true ∧
+    filterOutput (.map [("a", .list [.map [("$output", .bool false), ("x", .int 1)]])]) =
+      .error .extraKeys ∧
+    -- below a hidden map the same entry is never looked at
+    filterOutput (.map [("$output", .bool false),
+      ("a", .list [.map [("$output", .bool false), ("x", .int 1)]])]) = .ok none := by decide
+
+/-! # Root fallback -/
+
+mutual
+/-- a tree without selected paths has no marker: stripping changes nothing, selection cannot fail -/
+theorem C11_aux_no_paths : ∀ (v : Val), selectedPaths v = [] →
+    stripOut v = v ∧ hasBadMarker v = false ∧ hasOutTrue v = false
+  | .map kvs, h => by
+    simp only [selectedPaths, List.append_eq_nil_iff] at h
+    have hs : fhasBool kvs "$output" true = false := by
+      cases hs : fhasBool kvs "$output" true with
+      | false => rfl
+      | true => rw [hs] at h; simp at h
+    obtain ⟨a, b, c⟩ := C11_aux_no_paths_fields kvs h.2
+    simp only [stripOut, hs, Bool.false_eq_true, if_false, a, hasBadMarker, b, hasOutTrue, c,
+      Bool.or_self, and_self]
+  | .list xs, h => by
+    simp only [selectedPaths, List.append_eq_nil_iff] at h
+    have hs : hasListMapBool xs "$output" true = false := by
+      cases hs : hasListMapBool xs "$output" true with
+      | false => rfl
+      | true => rw [hs] at h; simp at h
+    obtain ⟨a, b, c⟩ := C11_aux_no_paths_list xs 0 h.1 hs
+    simp only [stripOut, a, hasBadMarker, b, hasOutTrue, c, hs, Bool.or_self, and_self]
+  | .null, _ | .bool _, _ | .int _, _ | .flt _, _ | .str _, _ => ⟨rfl, rfl, rfl⟩
+theorem C11_aux_no_paths_list : ∀ (xs : List Val) (i : Nat), selectedPathsList xs i = [] →
+    hasListMapBool xs "$output" true = false →
+    stripOutList xs = xs ∧ hasBadMarkerList xs = false ∧ hasOutTrueList xs = false
+  | [], _, _, _ => ⟨rfl, rfl, rfl⟩
+  | x :: xs, i, h, hs => by
+    rw [o_hasListMapBool_cons, Bool.or_eq_false_iff, ← C11_aux_isTrueMarker_eq] at hs
+    simp only [selectedPathsList, hs.1, Bool.false_eq_true, if_false, List.append_eq_nil_iff,
+      List.map_eq_nil_iff] at h
+    obtain ⟨a1, b1, c1⟩ := C11_aux_no_paths x h.1
+    obtain ⟨a2, b2, c2⟩ := C11_aux_no_paths_list xs (i + 1) h.2 hs.2
+    simp only [stripOutList, hs.1, Bool.false_eq_true, if_false, a1, a2, hasBadMarkerList, b1, b2,
+      hasOutTrueList, c1, c2, Bool.or_self, and_self]
+theorem C11_aux_no_paths_fields : ∀ (kvs : Fields), selectedPathsFields kvs = [] →
+    stripOutFields kvs = kvs ∧ hasBadMarkerFields kvs = false ∧ hasOutTrueFields kvs = false
+  | [], _ => ⟨rfl, rfl, rfl⟩
+  | (k, v) :: rest, h => by
+    simp only [selectedPathsFields, List.append_eq_nil_iff, List.map_eq_nil_iff] at h
+    obtain ⟨a1, b1, c1⟩ := C11_aux_no_paths v h.1
+    obtain ⟨a2, b2, c2⟩ := C11_aux_no_paths_fields rest h.2
+    simp only [stripOutFields, a1, a2, hasBadMarkerFields, b1, b2, hasOutTrueFields, c1, c2,
+      Bool.or_self, and_self]
+end
+
+mutual
+theorem C11_aux_paths_of_no_marker : ∀ (v : Val), hasOutTrue v = false → selectedPaths v = []
+  | .map kvs, h => by
+    simp only [hasOutTrue, Bool.or_eq_false_iff] at h
+    simp only [selectedPaths, h.1, Bool.false_eq_true, if_false, List.nil_append,
+      C11_aux_paths_of_no_marker_fields kvs h.2]
+  | .list xs, h => by
+    simp only [hasOutTrue, Bool.or_eq_false_iff] at h
+    simp only [selectedPaths, h.1, Bool.false_eq_true, if_false, List.append_nil,
+      C11_aux_paths_of_no_marker_list xs 0 h.2]
+  | .null, _ | .bool _, _ | .int _, _ | .flt _, _ | .str _, _ => rfl
+theorem C11_aux_paths_of_no_marker_list : ∀ (xs : List Val) (i : Nat), hasOutTrueList xs = false →
+    selectedPathsList xs i = []
+  | [], _, _ => rfl
+  | x :: xs, i, h => by
+    simp only [hasOutTrueList, Bool.or_eq_false_iff] at h
+    simp only [selectedPathsList, C11_aux_paths_of_no_marker x h.1, List.map_nil, ite_self,
+      List.nil_append, C11_aux_paths_of_no_marker_list xs (i + 1) h.2]
+theorem C11_aux_paths_of_no_marker_fields : ∀ (kvs : Fields), hasOutTrueFields kvs = false →
+    selectedPathsFields kvs = []
+  | [], _ => rfl
+  | (k, v) :: rest, h => by
+    simp only [hasOutTrueFields, Bool.or_eq_false_iff] at h
+    simp only [selectedPathsFields, C11_aux_paths_of_no_marker v h.1, List.map_nil, List.nil_append,
+      C11_aux_paths_of_no_marker_fields rest h.2]
+end
+
+/-- "no marker" in terms of paths and in terms of the existing predicate `hasOutTrue` -/
+theorem C11_selectedPaths_nil_iff (v : Val) : selectedPaths v = [] ↔ hasOutTrue v = false :=
+  ⟨fun h => (C11_aux_no_paths v h).2.2, C11_aux_paths_of_no_marker v⟩
+
+/-- the paths whose subtrees are handed to the hiding / validation / finalisation stage:
+    the selected ones, or the document root when nothing is selected -/
+def emittedPaths (d : Val) : List (List PathElem) :=
+  if selectedPaths d = [] then [[]] else selectedPaths d
+
+/-- the candidate documents at those paths, selection markers removed -/
+def docCandidates (d : Val) : List Val :=
+  (emittedPaths d).filterMap fun p => (subtreeAt d p).map stripOut
+
+/-- what the output stage makes of one candidate: nothing if it is hidden, else its hidden
+    parts removed and `$$` unescaped -/
+def renderDoc (v : Val) : Option Val := if hidden v then none else some (finalize (prune v))
+
+theorem C11_aux_docCandidates (d : Val) (hw : d.WF) :
+    docCandidates d = if selectedPaths d = [] then [d] else selDocs d := by
+  unfold docCandidates emittedPaths
+  split
+  · rename_i h
+    simp [subtreeAt, (C11_aux_no_paths d h).1]
+  · exact os_filterMap_map_some _ _ _ (C11_aux_selDocs_paths d hw)
+
+theorem C11_aux_selDocs_nil (d : Val) (hw : d.WF) : selDocs d = [] ↔ selectedPaths d = [] := by
+  have := C11_aux_selDocs_paths d hw
+  constructor
+  · intro h; rw [h] at this; simpa using this
+  · intro h; rw [h] at this; simpa using this.symm
+
+/-- **`emit` on one processed document**, as an equation: selection fails only on a marker
+    entry with extra keys; otherwise the candidates (`docCandidates`: the stripped subtrees at
+    `emittedPaths`) go through the second loop of `emit` (`emitFinish`, see `emit_eq`). -/
+theorem C11_emit_doc_eq (d : Val) (hw : d.WF) :
+    emit [d] = if hasBadMarker d then .error .extraKeys else emitFinish (docCandidates d) := by
+  rw [os_emit_eq, os_emitSelect_single, C11_findOutputs_eq d hw, C11_aux_docCandidates d hw]
+  by_cases hb : hasBadMarker d = true
+  · simp only [hb, if_true]
+  · simp only [hb, Bool.false_eq_true, if_false, List.isEmpty_iff, C11_aux_selDocs_nil d hw]
+    by_cases hp : selectedPaths d = []
+    · simp only [hp, if_true, (C11_aux_no_paths d hp).1]
+    · simp only [hp, if_false]
+
+theorem C11_aux_render_eq (c : Val) (h : filterFails c = false) :
+    (match filterOutput c with
+     | .ok (some v2) => some (finalize v2)
+     | _ => none) = renderDoc c := by
+  rw [C11_filterOutput_eq c]
+  simp only [h, Bool.false_eq_true, if_false, renderDoc]
+  cases hidden c <;> rfl
+
+/-- when `emit` succeeds on one processed document, and what it returns: the candidates in
+    order, hidden ones dropped, the others pruned and finalised -/
+theorem C11_emit_doc_spec (d : Val) (hw : d.WF) (outs : List Val) :
+    emit [d] = .ok outs ↔
+      hasBadMarker d = false ∧
+      (∀ c ∈ docCandidates d, filterFails c = false ∧
+        (hidden c = false → clean (prune c) = true)) ∧
+      outs = (docCandidates d).filterMap renderDoc := by
+  rw [C11_emit_doc_eq d hw]
+  by_cases hb : hasBadMarker d = true
+  · simp [hb]
+  · simp only [hb, Bool.false_eq_true, if_false, os_emitFinish_ok_iff, true_and]
+    constructor
+    · rintro ⟨h1, h2⟩
+      have h3 : ∀ c ∈ docCandidates d, filterFails c = false ∧
+          (hidden c = false → clean (prune c) = true) := by
+        intro c hc
+        obtain ⟨r, hr, hv⟩ := h1 c hc
+        rw [C11_filterOutput_eq c] at hr
+        cases hf : filterFails c with
+        | true => rw [hf] at hr; cases hr
+        | false =>
+          rw [hf] at hr
+          simp only [Bool.false_eq_true, if_false, Except.ok.injEq] at hr
+          refine ⟨rfl, fun hh => ?_⟩
+          rw [hh] at hr
+          exact (validate_iff _).1 (hv _ hr.symm)
+      refine ⟨h3, ?_⟩
+      rw [h2]
+      exact os_filterMap_congr _ _ _ (fun c hc => C11_aux_render_eq c (h3 c hc).1)
+    · rintro ⟨h3, h2⟩
+      refine ⟨?_, ?_⟩
+      · intro c hc
+        have hfo := C11_filterOutput_eq c
+        simp only [(h3 c hc).1, Bool.false_eq_true, if_false] at hfo
+        refine ⟨_, hfo, ?_⟩
+        intro v2 hv2
+        cases hh : hidden c with
+        | true => rw [hh] at hv2; cases hv2
+        | false =>
+          rw [hh] at hv2
+          simp only [Bool.false_eq_true, if_false, Option.some.injEq] at hv2
+          subst hv2
+          exact (validate_iff _).2 ((h3 c hc).2 hh)
+      · rw [h2]
+        exact (os_filterMap_congr _ _ _ (fun c hc => C11_aux_render_eq c (h3 c hc).1)).symm
+
+example : docCandidates c11_ex = [stripOut c11_ex, .map [("x", .int 1)],
+      .list [.map [("m", .map [("x", .int 1)])], .int 2], .map [("y", .null)]] ∧
+    emit [c11_ex] =
+      .ok [.map [("a", .list [.map [("m", .map [("x", .int 1)])], .int 2]), ("b", .map [("c", .map [])])],
+           .map [("x", .int 1)], .list [.map [("m", .map [("x", .int 1)])], .int 2], .map []] := by
+  decide
+
+/-- **Root fallback.**  (1) Without any marker the document root is the single candidate, and
+    `emit` is: hide, validate, finalise the root.  (2) With markers the candidates are exactly the
+    selected subtrees; the root is among them only if it carries the marker itself.  (3) In both
+    cases the outputs are the rendered candidates, in order. -/
+theorem C11_root_fallback_spec (d : Val) (hw : d.WF) :
+    (hasOutTrue d = false →
+      emittedPaths d = [[]] ∧ docCandidates d = [d] ∧
+      emit [d] =
+        match filterOutput d with
+        | .error e => .error e
+        | .ok none => .ok []
+        | .ok (some v2) =>
+          match validate v2 with
+          | .error e => .error e
+          | .ok _ => .ok [finalize v2]) ∧
+    (hasOutTrue d = true →
+      emittedPaths d = selectedPaths d ∧ ([] ∈ emittedPaths d ↔ carriesTrue d = true)) ∧
+    (∀ outs, emit [d] = .ok outs → outs = (docCandidates d).filterMap renderDoc) := by
+  refine ⟨?_, ?_, ?_⟩
+  · intro h
+    have hp := (C11_selectedPaths_nil_iff d).2 h
+    have hc : docCandidates d = [d] := by rw [C11_aux_docCandidates d hw, hp]; rfl
+    refine ⟨by simp [emittedPaths, hp], hc, ?_⟩
+    rw [C11_emit_doc_eq d hw, (C11_aux_no_paths d hp).2.1, hc, os_emitFinish_cons]
+    simp only [Bool.false_eq_true, if_false, os_emitFinish_nil]
+    cases filterOutput d with
+    | error e => rfl
+    | ok r =>
+      cases r with
+      | none => rfl
+      | some v2 => simp only []; cases validate v2 <;> rfl
+  · intro h
+    have hp : selectedPaths d ≠ [] := by
+      intro hp; rw [(C11_selectedPaths_nil_iff d).1 hp] at h; cases h
+    have he : emittedPaths d = selectedPaths d := by simp [emittedPaths, hp]
+    refine ⟨he, ?_⟩
+    rw [he, C11_selectedPaths_mem [] d hw]
+    simp [liveAt, subtreeAt]
+  · intro outs h
+    exact ((C11_emit_doc_spec d hw outs).1 h).2.2
+
+/-- second running example: no selection marker; a hidden map, a hidden list inside a list, a
+    `null`, an escaped dollar -/
+def c11_ex2 : Val :=
+  .map [("k", .map [("$output", .bool false), ("h", .int 2)]),
+        ("l", .list [.null, .int 1, .list [.map [("$output", .bool false)]], .str "$$z"])]
+
+example : c11_ex2.wfB = true ∧ hasOutTrue c11_ex2 = false ∧ emittedPaths c11_ex2 = [[]] ∧
+    emit [c11_ex2] = .ok [.map [("l", .list [.int 1, .str "$z"])]] := by decide
+example : hasOutTrue c11_ex = true ∧ carriesTrue c11_ex = true ∧ [] ∈ emittedPaths c11_ex := by
+  decide
+/-- markers below an unmarked root: the root is not emitted; and a subtree selected below a hidden
+    map IS emitted (selection does not look at `$output: false`) -/
+example : emit [.map [("a", .int 1), ("h", .map [("$output", .bool false),
+      ("s", .map [("$output", .bool true), ("x", .int 1)])])]] = .ok [.map [("x", .int 1)]] := by
+  decide
+
+/-- **Order across a stream** (`outputDocuments`): the merged documents are processed in
+    document order (each into zero or more documents), every processed document `p` is emitted on
+    its own (`emit [p]`), and the results are concatenated in that order.  When the processed
+    documents are well-formed, each contributes its rendered candidates in the per-document
+    order of `selectedPaths` (map: itself, then children by key; list: children by index, then
+    itself). -/
+theorem C11_order_stable (docs : List Val) (env : Vars) (outs : List Val)
+    (h : outputDocuments docs env = .ok outs) :
+    ∃ pss, docs.mapM (processDoc docs env) = .ok pss ∧
+      (∃ oss, pss.flatten.mapM (fun p => emit [p]) = .ok oss ∧ outs = oss.flatten) ∧
+      ((∀ p ∈ pss.flatten, p.WF) →
+        outs = pss.flatten.flatMap fun p => (docCandidates p).filterMap renderDoc) := by
+  obtain ⟨pss, h1, oss, h2, rfl⟩ := os_outputDocuments_stream docs env outs h
+  refine ⟨pss, h1, ⟨oss, h2, rfl⟩, ?_⟩
+  intro hw
+  rw [os_mapM_ok_map _ (fun p => (docCandidates p).filterMap renderDoc) _ _ ?_ h2,
+    List.flatMap_def]
+  intro p hp o ho
+  exact ((C11_emit_doc_spec p (hw p hp) o).1 ho).2.2
+
+/-- the same one level down: `emit` on the processed documents of one merged document -/
+theorem C11_order_stable_emit (ps outs : List Val) (hw : ∀ p ∈ ps, p.WF)
+    (h : emit ps = .ok outs) :
+    outs = ps.flatMap fun p => (docCandidates p).filterMap renderDoc := by
+  obtain ⟨oss, h2, rfl⟩ := (os_emit_ok_iff ps outs).1 h
+  rw [os_mapM_ok_map _ (fun p => (docCandidates p).filterMap renderDoc) _ _ ?_ h2,
+    List.flatMap_def]
+  intro p hp o ho
+  exact ((C11_emit_doc_spec p (hw p hp) o).1 ho).2.2
+
+example : outputDocuments [c11_ex2, c11_ex] [] =
+    .ok [.map [("l", .list [.int 1, .str "$z"])],
+         .map [("a", .list [.map [("m", .map [("x", .int 1)])], .int 2]), ("b", .map [("c", .map [])])],
+         .map [("x", .int 1)], .list [.map [("m", .map [("x", .int 1)])], .int 2], .map []] := by
+  decide +kernel
+example : outputDocuments [.map [("a", .int 1)], .null, .int 3] [] =
+    .ok [.map [("a", .int 1)], .int 3] := by decide
+
+/-! # Duplicate and malformed markers -/
+
+/-- the marker entry of a list -/
+def trueMarker : Val := .map [("$output", .bool true)]
+
+/-- **Duplicate list markers are idempotent** (no well-formedness needed): in a list that
+    already has a `{$output: true}` entry, a further clean marker entry `m` anywhere changes
+    neither the parent document nor the selected documents — it is consumed like the first. -/
+theorem C11_duplicate_markers (m : Fields) (a b : List Val)
+    (hm : fhasBool m "$output" true = true) (hl : (fdel m "$output").length = 0)
+    (h : hasListMapBool (a ++ b) "$output" true = true) :
+    findOutputs (.list (a ++ .map m :: b)) = findOutputs (.list (a ++ b)) := by
+  have h' : hasListMapBool (a ++ .map m :: b) "$output" true = true := by
+    rw [os_hasListMapBool_append, o_hasListMapBool_cons]
+    simp only [o_isMarker, hm, Bool.true_or, Bool.or_true]
+  rw [os_findOutputs_list_eq, os_findOutputs_list_eq, h, h',
+    os_findOutputsList_insert_marker m hm hl a b]
+
+/-- in particular two leading `{$output: true}` entries: both are removed, nothing fails, the
+    list is selected ONCE (last, after the documents selected inside it) -/
+theorem C11_duplicate_markers_spec (xs : List Val) (hw : (Val.list xs).WF)
+    (hb : hasBadMarkerList xs = false) :
+    findOutputs (.list (trueMarker :: trueMarker :: xs)) =
+      .ok (.list (stripOutList xs), selDocsList xs ++ [.list (stripOutList xs)]) ∧
+    findOutputs (.list (trueMarker :: trueMarker :: xs)) = findOutputs (.list (trueMarker :: xs)) := by
+  have hw1 : (Val.list (trueMarker :: xs)).wfB = true := by
+    simp only [Val.WF, Val.wfB] at hw
+    simp only [Val.wfB, Val.wfListB, hw, Bool.and_true]; decide
+  have hm : isTrueMarker trueMarker = true := by decide
+  have hbm : isBadMarker true trueMarker = false := by decide
+  have hs : hasListMapBool (trueMarker :: xs) "$output" true = true := by
+    rw [o_hasListMapBool_cons]; simp only [← C11_aux_isTrueMarker_eq, hm, Bool.true_or]
+  have h2 : findOutputs (.list (trueMarker :: trueMarker :: xs)) =
+      findOutputs (.list (trueMarker :: xs)) :=
+    C11_duplicate_markers [("$output", .bool true)] [trueMarker] xs (by decide) (by decide) hs
+  refine ⟨?_, h2⟩
+  rw [h2, C11_findOutputs_eq _ hw1]
+  simp only [hasBadMarker, hasBadMarkerList, hm, if_true, hbm, Bool.false_or, hb,
+    Bool.false_eq_true, if_false, stripOut, stripOutList, selDocs, selDocsList, List.nil_append,
+    hs]
+
+example : findOutputs (.list [trueMarker, .int 1, trueMarker, .map [("a", trueMarker)], trueMarker]) =
+    .ok (.list [.int 1, .map [("a", .map [])]], [.map [], .list [.int 1, .map [("a", .map [])]]]) := by
+  decide
+example : (Val.list [.int 1, .map [("a", trueMarker)]]).wfB = true ∧
+    hasBadMarkerList [.int 1, .map [("a", trueMarker)]] = false := by decide
+
+/-- the full statement "a non-boolean `$output` is left in place and rejected" is FALSE: when
+    its value is hidden (`null`, a map with `$output: false`, a list with such an entry) the key
+    is dropped together with the value and the document passes -/
+theorem C11_nonbool_marker_counterexample :
+    emit [.map [("$output", .null), ("a", .int 1)]] = .ok [.map [("a", .int 1)]] ∧
+    emit [.map [("$output", .map [("$output", .bool false)]), ("a", .int 1)]] =
+      .ok [.map [("a", .int 1)]] := by decide
+
+theorem C11_aux_fget_stripOutFields (kvs : Fields) (k : String) :
+    fget (stripOutFields kvs) k = (fget kvs k).map stripOut := by
+  induction kvs with
+  | nil => rfl
+  | cons kv rest ih =>
+    obtain ⟨k', v⟩ := kv
+    simp only [stripOutFields, fget]
+    split
+    · rfl
+    · exact ih
+
+theorem C11_aux_fget_pruneFields (kvs : Fields) (k : String) (x : Val)
+    (h : fget kvs k = some x) (hh : hidden x = false) :
+    fget (pruneFields kvs) k = some (prune x) := by
+  induction kvs with
+  | nil => cases h
+  | cons kv rest ih =>
+    obtain ⟨k', v⟩ := kv
+    simp only [fget] at h
+    simp only [pruneFields]
+    split at h
+    · rename_i hk
+      cases h
+      simp only [hh, Bool.false_eq_true, if_false, fget, hk, if_true]
+    · rename_i hk
+      split
+      · exact ih h
+      · simp only [fget, hk, if_false]; exact ih h
+
+theorem C11_aux_not_clean_of_key (kvs : Fields) (k : String) (y : Val) (hk : badString k = true)
+    (h : fget kvs k = some y) : cleanFields kvs = false := by
+  induction kvs with
+  | nil => cases h
+  | cons kv rest ih =>
+    obtain ⟨k', v⟩ := kv
+    simp only [fget] at h
+    simp only [cleanFields, Bool.and_eq_false_iff]
+    split at h
+    · rename_i hk'; subst hk'; left; left; simp [hk]
+    · right; exact ih h
+
+/-- **A non-boolean `$output`** is no marker of either polarity; selection leaves it in place
+    (its value is stripped like any other child), and so does hiding unless the value itself is
+    hidden. -/
+theorem C11_nonbool_marker_kept (kvs : Fields) (x : Val) (hx : fget kvs "$output" = some x)
+    (hnb : ∀ b, x ≠ .bool b) :
+    carriesTrue (.map kvs) = false ∧ hidden (.map kvs) = false ∧
+    stripOut (.map kvs) = .map (stripOutFields kvs) ∧
+    fget (stripOutFields kvs) "$output" = some (stripOut x) ∧
+    (hidden x = false → fget (pruneFields kvs) "$output" = some (prune x)) := by
+  have hb : ∀ b, fhasBool kvs "$output" b = false := by
+    intro b
+    unfold fhasBool
+    rw [hx]
+    cases x with
+    | bool b' => exact absurd rfl (hnb b')
+    | _ => rfl
+  refine ⟨hb true, hb false, ?_, ?_, C11_aux_fget_pruneFields kvs _ x hx⟩
+  · simp only [stripOut, hb true, Bool.false_eq_true, if_false]
+  · rw [C11_aux_fget_stripOutFields, hx]; rfl
+
+/-- `_partial` (see `C11_nonbool_marker_counterexample`; the hypothesis `hidden x = false`
+    excludes exactly the failing class): a candidate document that is a map whose `$output` is
+    neither a boolean nor hidden makes `emit` fail — the key reaches `validate`, which rejects it
+    (`validate_iff`: the pruned candidate is not `clean`). -/
+theorem C11_nonbool_marker_partial (d : Val) (hw : d.WF) (kvs : Fields) (x : Val)
+    (hc : .map kvs ∈ docCandidates d) (hx : fget kvs "$output" = some x)
+    (hnb : ∀ b, x ≠ .bool b) (hh : hidden x = false) :
+    clean (prune (.map kvs)) = false ∧ validate (prune (.map kvs)) ≠ .ok () ∧
+    ∃ e, emit [d] = .error e := by
+  obtain ⟨_, h2, _, _, h5⟩ := C11_nonbool_marker_kept kvs x hx hnb
+  have hcl : clean (prune (.map kvs)) = false := by
+    simp only [prune, clean]
+    exact C11_aux_not_clean_of_key _ "$output" _ (by decide) (h5 hh)
+  refine ⟨hcl, ?_, ?_⟩
+  · intro hv; rw [(validate_iff _).1 hv] at hcl; cases hcl
+  · cases he : emit [d] with
+    | error e => exact ⟨e, rfl⟩
+    | ok outs =>
+      have := ((C11_emit_doc_spec d hw outs).1 he).2.1 _ hc
+      rw [this.2 h2] at hcl; cases hcl
+
+/-- the root case: no selection marker anywhere, `$output` non-boolean and not hidden -/
+theorem C11_nonbool_marker_root (kvs : Fields) (x : Val) (hw : (Val.map kvs).WF)
+    (hm : hasOutTrue (.map kvs) = false) (hx : fget kvs "$output" = some x)
+    (hnb : ∀ b, x ≠ .bool b) (hh : hidden x = false) :
+    ∃ e, emit [.map kvs] = .error e := by
+  have hc := ((C11_root_fallback_spec (.map kvs) hw).1 hm).2.1
+  exact (C11_nonbool_marker_partial (.map kvs) hw kvs x (by rw [hc]; exact List.mem_singleton.2 rfl)
+    hx hnb hh).2.2
+
+example : emit [.map [("$output", .str "yes"), ("a", .int 1)]] = .error .invalidDirective ∧
+    emit [.map [("$output", .list [.int 1]), ("a", .int 1)]] = .error .invalidDirective ∧
+    hidden (.str "yes") = false ∧ hasOutTrue (.map [("$output", .str "yes"), ("a", .int 1)]) = false :=
+  by decide
+/-- (when the non-boolean value is itself a marked map, that map is selected and the root — with
+    its stray `$output` key — is not a candidate at all) -/
+example : emit [.map [("$output", .map [("$output", .bool true)]), ("a", .int 1)]] = .ok [.map []] := by
+  decide
+
+/-! # Hidden paths: which nodes of a candidate survive `prune` -/
+
+/-- a container that carries the hiding marker: a map with `$output: false`, a list with a
+    `{$output: false}` entry (`hidden` = `carriesFalse` or `null`) -/
+def carriesFalse : Val → Bool
+  | .map kvs => fhasBool kvs "$output" false
+  | .list xs => hasListMapBool xs "$output" false
+  | _ => false
+
+theorem C11_hidden_eq (v : Val) : hidden v = (carriesFalse v || v.isNull) := by
+  cases v <;> simp [hidden, carriesFalse, Val.isNull]
+
+mutual
+/-- the paths of all nodes of `v` satisfying `P`, in pre-order -/
+def pathsWhere (P : Val → Bool) : Val → List (List PathElem)
+  | .map kvs => (if P (.map kvs) then [[]] else []) ++ pathsWhereFields P kvs
+  | .list xs => (if P (.list xs) then [[]] else []) ++ pathsWhereList P xs 0
+  | v => if P v then [[]] else []
+def pathsWhereList (P : Val → Bool) : List Val → Nat → List (List PathElem)
+  | [], _ => []
+  | x :: xs, i => (pathsWhere P x).map (PathElem.idx i :: ·) ++ pathsWhereList P xs (i + 1)
+def pathsWhereFields (P : Val → Bool) : Fields → List (List PathElem)
+  | [] => []
+  | (k, v) :: rest => (pathsWhere P v).map (PathElem.key k :: ·) ++ pathsWhereFields P rest
+end
+
+/-- **the hidden paths** of a tree: the maps with `$output: false` and the lists with a
+    `{$output: false}` entry (all of them, also below one another) -/
+def hiddenPaths (v : Val) : List (List PathElem) := pathsWhere carriesFalse v
+
+/-- one step down -/
+def childAt : Val → PathElem → Option Val
+  | .map kvs, .key k => fget kvs k
+  | .list xs, .idx i => xs[i]?
+  | _, _ => none
+
+theorem C11_aux_subtreeAt_cons (t : Val) (e : PathElem) (p : List PathElem) :
+    subtreeAt t (e :: p) = match childAt t e with
+      | some c => subtreeAt c p
+      | none => none := by
+  cases t <;> cases e <;> simp only [subtreeAt, childAt]
+
+theorem C11_aux_subtreeAt_append (p q : List PathElem) : ∀ (t : Val),
+    subtreeAt t (p ++ q) = match subtreeAt t p with
+      | some c => subtreeAt c q
+      | none => none := by
+  induction p with
+  | nil => intro t; rfl
+  | cons e p ih =>
+    intro t
+    rw [List.cons_append, C11_aux_subtreeAt_cons, C11_aux_subtreeAt_cons]
+    cases childAt t e with
+    | none => rfl
+    | some c => exact ih c
+
+theorem C11_aux_childAt_wf {t c : Val} {e : PathElem} (hw : t.WF) (h : childAt t e = some c) :
+    c.WF := by
+  cases t with
+  | map kvs =>
+    cases e with
+    | key k =>
+      simp only [Val.WF, Val.wfB, Bool.and_eq_true] at hw
+      exact wfFieldsB_iff.1 hw.2 (k, c) (o_mem_of_fget kvs k c h)
+    | idx i => cases h
+  | list xs =>
+    cases e with
+    | key k => cases h
+    | idx i =>
+      simp only [Val.WF, Val.wfB] at hw
+      exact wfListB_iff.1 hw c (List.mem_of_getElem? h)
+  | _ => cases h
+
+theorem C11_aux_mem_pathsWhereList (P : Val → Bool) (p : List PathElem) :
+    ∀ (xs : List Val) (i : Nat),
+    p ∈ pathsWhereList P xs i ↔
+      ∃ j c q, p = .idx (i + j) :: q ∧ xs[j]? = some c ∧ q ∈ pathsWhere P c
+  | [], i => by simp [pathsWhereList]
+  | x :: xs, i => by
+    simp only [pathsWhereList, List.mem_append, C11_aux_mem_pathsWhereList P p xs (i + 1),
+      List.mem_map]
+    constructor
+    · rintro (⟨q, hq, rfl⟩ | ⟨j, c, q, rfl, hc, hq⟩)
+      · exact ⟨0, x, q, rfl, rfl, hq⟩
+      · exact ⟨j + 1, c, q, by congr 2; omega, by simpa using hc, hq⟩
+    · rintro ⟨j, c, q, rfl, hc, hq⟩
+      cases j with
+      | zero =>
+        left
+        simp only [List.getElem?_cons_zero, Option.some.injEq] at hc
+        subst hc
+        exact ⟨q, hq, rfl⟩
+      | succ j =>
+        right
+        exact ⟨j, c, q, by congr 2; omega, by simpa using hc, hq⟩
+
+theorem C11_aux_mem_pathsWhereFields (P : Val → Bool) (p : List PathElem) : ∀ (kvs : Fields),
+    p ∈ pathsWhereFields P kvs ↔
+      ∃ k c q, p = .key k :: q ∧ (k, c) ∈ kvs ∧ q ∈ pathsWhere P c
+  | [] => by simp [pathsWhereFields]
+  | (k, v) :: rest => by
+    simp only [pathsWhereFields, List.mem_append, C11_aux_mem_pathsWhereFields P p rest,
+      List.mem_map, List.mem_cons]
+    constructor
+    · rintro (⟨q, hq, rfl⟩ | ⟨k', c, q, rfl, hc, hq⟩)
+      · exact ⟨k, v, q, rfl, Or.inl rfl, hq⟩
+      · exact ⟨k', c, q, rfl, Or.inr hc, hq⟩
+    · rintro ⟨k', c, q, rfl, hc | hc, hq⟩
+      · cases hc; exact Or.inl ⟨q, hq, rfl⟩
+      · exact Or.inr ⟨k', c, q, rfl, hc, hq⟩
+
+theorem C11_aux_nil_mem_pathsWhere (P : Val → Bool) (v : Val) :
+    [] ∈ pathsWhere P v ↔ P v = true := by
+  cases v with
+  | map kvs =>
+    have : [] ∉ pathsWhereFields P kvs := by
+      rw [C11_aux_mem_pathsWhereFields]; rintro ⟨_, _, _, h, _⟩; cases h
+    cases hp : P (.map kvs) <;> simp [pathsWhere, hp, this]
+  | list xs =>
+    have : [] ∉ pathsWhereList P xs 0 := by
+      rw [C11_aux_mem_pathsWhereList]; rintro ⟨_, _, _, h, _⟩; cases h
+    cases hp : P (.list xs) <;> simp [pathsWhere, hp, this]
+  | null => cases hp : P .null <;> simp [pathsWhere, hp]
+  | bool b => cases hp : P (.bool b) <;> simp [pathsWhere, hp]
+  | int i => cases hp : P (.int i) <;> simp [pathsWhere, hp]
+  | flt r => cases hp : P (.flt r) <;> simp [pathsWhere, hp]
+  | str s => cases hp : P (.str s) <;> simp [pathsWhere, hp]
+
+theorem C11_aux_cons_mem_pathsWhere (P : Val → Bool) (e : PathElem) (q : List PathElem) (v : Val)
+    (hw : v.WF) :
+    e :: q ∈ pathsWhere P v ↔ ∃ c, childAt v e = some c ∧ q ∈ pathsWhere P c := by
+  cases v with
+  | map kvs =>
+    simp only [Val.WF, Val.wfB, Bool.and_eq_true] at hw
+    have hne : (e :: q) ∉ (if P (.map kvs) then [[]] else []) := by split <;> simp
+    simp only [pathsWhere, List.mem_append, hne, false_or, C11_aux_mem_pathsWhereFields]
+    constructor
+    · rintro ⟨k, c, q', heq, hc, hq⟩
+      cases heq
+      exact ⟨c, o_fget_of_mem_sorted kvs k c hw.1 hc, hq⟩
+    · rintro ⟨c, hc, hq⟩
+      cases e with
+      | key k => exact ⟨k, c, q, rfl, o_mem_of_fget kvs k c hc, hq⟩
+      | idx i => cases hc
+  | list xs =>
+    have hne : (e :: q) ∉ (if P (.list xs) then [[]] else []) := by split <;> simp
+    simp only [pathsWhere, List.mem_append, hne, false_or, C11_aux_mem_pathsWhereList]
+    constructor
+    · rintro ⟨j, c, q', heq, hc, hq⟩
+      cases heq
+      exact ⟨c, by simpa [childAt] using hc, hq⟩
+    · rintro ⟨c, hc, hq⟩
+      cases e with
+      | key k => cases hc
+      | idx i => exact ⟨i, c, q, by simp, hc, hq⟩
+  | null | bool _ | int _ | flt _ | str _ =>
+    simp only [pathsWhere, childAt, reduceCtorEq, false_and, exists_false, iff_false]
+    split <;> simp
+
+/-- `pathsWhere P` lists exactly the nodes satisfying `P` -/
+theorem C11_pathsWhere_mem (P : Val → Bool) : ∀ (p : List PathElem) (v : Val), v.WF →
+    (p ∈ pathsWhere P v ↔ ∃ t, subtreeAt v p = some t ∧ P t = true)
+  | [], v, _ => by simp [C11_aux_nil_mem_pathsWhere, subtreeAt]
+  | e :: q, v, hw => by
+    rw [C11_aux_cons_mem_pathsWhere P e q v hw, C11_aux_subtreeAt_cons]
+    cases hc : childAt v e with
+    | none => simp
+    | some c =>
+      simp only [Option.some.injEq, exists_eq_left']
+      exact C11_pathsWhere_mem P q c (C11_aux_childAt_wf hw hc)
+
+/-- so: `p` is a hidden path iff the node at `p` is a map with `$output: false` or a list with a
+    `{$output: false}` entry -/
+theorem C11_hiddenPaths_mem (v : Val) (hw : v.WF) (p : List PathElem) :
+    p ∈ hiddenPaths v ↔ ∃ t, subtreeAt v p = some t ∧ carriesFalse t = true :=
+  C11_pathsWhere_mem carriesFalse p v hw
+
+example : hiddenPaths c11_ex2 = [[.key "k"], [.key "l", .idx 2], [.key "l", .idx 2, .idx 0]] := by
+  decide
+
+/-- where a step lands after pruning: keys are unchanged, a list index is lowered by the number
+    of hidden entries before it -/
+def keptElem : Val → PathElem → PathElem
+  | .list xs, .idx i => .idx ((xs.take i).countP (fun x => !hidden x))
+  | _, e => e
+
+/-- the image in `prune t` of a path of `t`; `none` if the path does not exist in `t` or leads
+    through (or to) a hidden node below the root -/
+def keptPath : Val → List PathElem → Option (List PathElem)
+  | _, [] => some []
+  | t, e :: p =>
+    match childAt t e with
+    | some c => if hidden c then none else (keptPath c p).map (keptElem t e :: ·)
+    | none => none
+
+theorem C11_aux_pruneList_getElem : ∀ (xs : List Val) (i : Nat) (c : Val),
+    xs[i]? = some c → hidden c = false →
+    (pruneList xs)[(xs.take i).countP (fun x => !hidden x)]? = some (prune c)
+  | [], i, c, h, _ => by simp at h
+  | x :: xs, 0, c, h, hh => by
+    simp only [List.getElem?_cons_zero, Option.some.injEq] at h
+    subst h
+    simp [pruneList, hh]
+  | x :: xs, i + 1, c, h, hh => by
+    simp only [List.getElem?_cons_succ] at h
+    have ih := C11_aux_pruneList_getElem xs i c h hh
+    simp only [List.take_succ_cons, List.countP_cons, pruneList]
+    cases hx : hidden x with
+    | true => simpa using ih
+    | false => simpa using ih
+
+theorem C11_aux_pruneList_getElem_inv : ∀ (xs : List Val) (j : Nat) (s : Val),
+    (pruneList xs)[j]? = some s →
+    ∃ i c, xs[i]? = some c ∧ hidden c = false ∧ s = prune c ∧
+      (xs.take i).countP (fun x => !hidden x) = j
+  | [], j, s, h => by simp [pruneList] at h
+  | x :: xs, j, s, h => by
+    simp only [pruneList] at h
+    cases hx : hidden x with
+    | true =>
+      rw [hx] at h
+      simp only [if_true] at h
+      obtain ⟨i, c, h1, h2, h3, h4⟩ := C11_aux_pruneList_getElem_inv xs j s h
+      exact ⟨i + 1, c, by simpa using h1, h2, h3, by simp [List.take_succ_cons, hx, h4]⟩
+    | false =>
+      rw [hx] at h
+      simp only [Bool.false_eq_true, if_false] at h
+      cases j with
+      | zero =>
+        simp only [List.getElem?_cons_zero, Option.some.injEq] at h
+        exact ⟨0, x, rfl, hx, h.symm, by simp⟩
+      | succ j =>
+        simp only [List.getElem?_cons_succ] at h
+        obtain ⟨i, c, h1, h2, h3, h4⟩ := C11_aux_pruneList_getElem_inv xs j s h
+        exact ⟨i + 1, c, by simpa using h1, h2, h3,
+          by simp [List.take_succ_cons, hx, h4]⟩
+
+theorem C11_aux_fget_pruneFields_inv : ∀ (kvs : Fields) (k : String) (s : Val),
+    Fields.sortedKeysB kvs = true → fget (pruneFields kvs) k = some s →
+    ∃ c, fget kvs k = some c ∧ hidden c = false ∧ s = prune c
+  | [], _, _, _, h => by cases h
+  | (k', v) :: rest, k, s, hs, h => by
+    simp only [pruneFields] at h
+    have ih := C11_aux_fget_pruneFields_inv rest k s (o_sorted_tail hs)
+    have hne_of : ∀ c, fget rest k = some c → k' ≠ k := by
+      intro c hc hk
+      have := o_sorted_head_lt k' v rest hs (k, c) (o_mem_of_fget rest k c hc)
+      rw [hk] at this
+      exact String.lt_irrefl _ this
+    cases hv : hidden v with
+    | true =>
+      rw [hv] at h
+      simp only [if_true] at h
+      obtain ⟨c, h1, h2, h3⟩ := ih h
+      exact ⟨c, by simp only [fget, hne_of c h1, if_false]; exact h1, h2, h3⟩
+    | false =>
+      rw [hv] at h
+      simp only [Bool.false_eq_true, if_false, fget] at h
+      by_cases hk : k' = k
+      · simp only [hk, if_true, Option.some.injEq] at h
+        exact ⟨v, by simp only [fget, hk, if_true], hv, h.symm⟩
+      · simp only [hk, if_false] at h
+        obtain ⟨c, h1, h2, h3⟩ := ih h
+        exact ⟨c, by simp only [fget, hk, if_false]; exact h1, h2, h3⟩
+
+/-- a kept child is found in the pruned parent, at the translated step -/
+theorem C11_aux_childAt_prune (t c : Val) (e : PathElem) (h : childAt t e = some c)
+    (hh : hidden c = false) : childAt (prune t) (keptElem t e) = some (prune c) := by
+  cases t with
+  | map kvs =>
+    cases e with
+    | key k => exact C11_aux_fget_pruneFields kvs k c h hh
+    | idx i => cases h
+  | list xs =>
+    cases e with
+    | key k => cases h
+    | idx i => exact C11_aux_pruneList_getElem xs i c h hh
+  | _ => cases h
+
+/-- … and every child of the pruned parent is such an image -/
+theorem C11_aux_childAt_prune_inv (t s : Val) (e' : PathElem) (hw : t.WF)
+    (h : childAt (prune t) e' = some s) :
+    ∃ e c, childAt t e = some c ∧ hidden c = false ∧ s = prune c ∧ keptElem t e = e' := by
+  cases t with
+  | map kvs =>
+    cases e' with
+    | key k =>
+      simp only [Val.WF, Val.wfB, Bool.and_eq_true] at hw
+      obtain ⟨c, h1, h2, h3⟩ := C11_aux_fget_pruneFields_inv kvs k s hw.1 h
+      exact ⟨.key k, c, h1, h2, h3, rfl⟩
+    | idx i => cases h
+  | list xs =>
+    cases e' with
+    | key k => cases h
+    | idx j =>
+      obtain ⟨i, c, h1, h2, h3, h4⟩ := C11_aux_pruneList_getElem_inv xs j s h
+      exact ⟨.idx i, c, h1, h2, h3, by simp only [keptElem, h4]⟩
+  | _ => cases h
+
+/-- `p` exists in `t` but a node on the way (the root excluded, the end point included) is
+    hidden -/
+def droppedAt (t : Val) (p : List PathElem) : Prop :=
+  ∃ q r c, p = q ++ r ∧ q ≠ [] ∧ subtreeAt t q = some c ∧ hidden c = true
+
+theorem C11_aux_droppedAt_cons (t c : Val) (e : PathElem) (p : List PathElem)
+    (hc : childAt t e = some c) :
+    droppedAt t (e :: p) ↔ hidden c = true ∨ droppedAt c p := by
+  constructor
+  · rintro ⟨q, r, c', heq, hq, hs, hh⟩
+    cases q with
+    | nil => exact absurd rfl hq
+    | cons e' q' =>
+      simp only [List.cons_append, List.cons.injEq] at heq
+      obtain ⟨rfl, rfl⟩ := heq
+      rw [C11_aux_subtreeAt_cons, hc] at hs
+      cases q' with
+      | nil =>
+        simp only [subtreeAt, Option.some.injEq] at hs
+        subst hs; exact Or.inl hh
+      | cons e2 q2 => exact Or.inr ⟨e2 :: q2, r, c', rfl, by simp, hs, hh⟩
+  · rintro (hh | ⟨q, r, c', rfl, hq, hs, hh⟩)
+    · exact ⟨[e], p, c, rfl, by simp, by rw [C11_aux_subtreeAt_cons, hc]; rfl, hh⟩
+    · exact ⟨e :: q, r, c', rfl, by simp, by rw [C11_aux_subtreeAt_cons, hc]; exact hs, hh⟩
+
+/-- **which paths are lost**: exactly those that do not exist or are dropped -/
+theorem C11_keptPath_none : ∀ (p : List PathElem) (t : Val),
+    keptPath t p = none ↔ subtreeAt t p = none ∨ droppedAt t p
+  | [], t => by
+    simp only [keptPath, subtreeAt, reduceCtorEq, false_or, false_iff]
+    rintro ⟨q, r, _, heq, hq, _⟩
+    cases q with
+    | nil => exact hq rfl
+    | cons _ _ => cases heq
+  | e :: p, t => by
+    rw [C11_aux_subtreeAt_cons]
+    simp only [keptPath]
+    cases hc : childAt t e with
+    | none =>
+      simp only [true_or]
+    | some c =>
+      simp only [C11_aux_droppedAt_cons t c e p hc]
+      cases hh : hidden c with
+      | true => simp
+      | false =>
+        simp only [Bool.false_eq_true, if_false, Option.map_eq_none_iff, false_or]
+        exact C11_keptPath_none p c
+
+/-- **the nodes that are kept** sit, pruned, at the translated path -/
+theorem C11_keptPath_some : ∀ (p p' : List PathElem) (t : Val), keptPath t p = some p' →
+    ∃ s, subtreeAt t p = some s ∧ subtreeAt (prune t) p' = some (prune s)
+  | [], p', t, h => by
+    simp only [keptPath, Option.some.injEq] at h
+    subst h
+    exact ⟨t, rfl, rfl⟩
+  | e :: p, p', t, h => by
+    simp only [keptPath] at h
+    cases hc : childAt t e with
+    | none => rw [hc] at h; cases h
+    | some c =>
+      rw [hc] at h
+      simp only at h
+      cases hh : hidden c with
+      | true => rw [hh] at h; cases h
+      | false =>
+        rw [hh] at h
+        simp only [Bool.false_eq_true, if_false, Option.map_eq_some_iff] at h
+        obtain ⟨p1, h1, rfl⟩ := h
+        obtain ⟨s, h2, h3⟩ := C11_keptPath_some p p1 c h1
+        refine ⟨s, ?_, ?_⟩
+        · rw [C11_aux_subtreeAt_cons, hc]; exact h2
+        · rw [C11_aux_subtreeAt_cons, C11_aux_childAt_prune t c e hc hh]; exact h3
+
+/-- **nothing else is there**: every node of `prune t` is the image of a kept node of `t` -/
+theorem C11_keptPath_surj : ∀ (p' : List PathElem) (t s : Val), t.WF →
+    subtreeAt (prune t) p' = some s → ∃ p, keptPath t p = some p'
+  | [], t, s, _, _ => ⟨[], rfl⟩
+  | e' :: p1', t, s, hw, h => by
+    rw [C11_aux_subtreeAt_cons] at h
+    cases hc : childAt (prune t) e' with
+    | none => rw [hc] at h; cases h
+    | some s1 =>
+      rw [hc] at h
+      obtain ⟨e, c, h1, h2, rfl, rfl⟩ := C11_aux_childAt_prune_inv t s1 e' hw hc
+      obtain ⟨p1, h3⟩ := C11_keptPath_surj p1' c s (C11_aux_childAt_wf hw h1) h
+      exact ⟨e :: p1, by simp only [keptPath, h1, h2, Bool.false_eq_true, if_false, h3]; rfl⟩
+
+/-- "dropped" in terms of `hiddenPaths`: a non-empty prefix of the path is a hidden path, or
+    leads to a `null` -/
+theorem C11_droppedAt_iff (t : Val) (hw : t.WF) (p : List PathElem) :
+    droppedAt t p ↔
+      ∃ q r, p = q ++ r ∧ q ≠ [] ∧ (q ∈ hiddenPaths t ∨ subtreeAt t q = some .null) := by
+  constructor
+  · rintro ⟨q, r, c, rfl, hq, hs, hh⟩
+    refine ⟨q, r, rfl, hq, ?_⟩
+    rw [C11_hidden_eq, Bool.or_eq_true] at hh
+    rcases hh with hh | hh
+    · exact Or.inl ((C11_hiddenPaths_mem t hw q).2 ⟨c, hs, hh⟩)
+    · cases c <;> simp_all [Val.isNull]
+  · rintro ⟨q, r, rfl, hq, h | h⟩
+    · obtain ⟨c, hs, hh⟩ := (C11_hiddenPaths_mem t hw q).1 h
+      exact ⟨q, r, c, rfl, hq, hs, by rw [C11_hidden_eq, hh]; rfl⟩
+    · exact ⟨q, r, .null, rfl, hq, h, rfl⟩
+
+/-- **Hiding, specified.**  For a candidate `t` (a selected subtree or the root):
+    (1) `filterOutput` returns nothing for a hidden `t`, else `prune t`;
+    (2) the paths of `t` that are lost are exactly the non-existent ones and those with a
+        non-empty prefix in `hiddenPaths t` (or at a `null`): nothing at or below a hidden path
+        survives;
+    (3) every other node of `t` is in `prune t`, pruned, at the translated path;
+    (4) `prune t` has no other nodes. -/
+theorem C11_hidden_spec (t : Val) (hw : t.WF) :
+    (∀ r, filterOutput t = .ok r → r = if hidden t then none else some (prune t)) ∧
+    (∀ p, keptPath t p = none ↔ subtreeAt t p = none ∨
+      ∃ q r, p = q ++ r ∧ q ≠ [] ∧ (q ∈ hiddenPaths t ∨ subtreeAt t q = some .null)) ∧
+    (∀ p p', keptPath t p = some p' →
+      ∃ s, subtreeAt t p = some s ∧ subtreeAt (prune t) p' = some (prune s)) ∧
+    (∀ p' s, subtreeAt (prune t) p' = some s → ∃ p, keptPath t p = some p') := by
+  refine ⟨?_, ?_, fun p p' => C11_keptPath_some p p' t, fun p' s => C11_keptPath_surj p' t s hw⟩
+  · intro r h
+    rw [C11_filterOutput_eq t] at h
+    split at h
+    · cases h
+    · cases h; rfl
+  · intro p
+    rw [C11_keptPath_none p t, C11_droppedAt_iff t hw p]
+
+/-- **A hidden root yields no document**: `filterOutput` returns nothing (a hidden list whose
+    marker entry has extra keys is rejected instead), so a document without selection markers
+    whose root is hidden produces no output at all. -/
+theorem C11_hidden_root (t : Val) (hh : hidden t = true) :
+    (filterOutput t = .ok none ∨ filterOutput t = .error .extraKeys) ∧
+    (∀ r, filterOutput t = .ok r → r = none) ∧
+    renderDoc t = none ∧
+    (t.WF → hasOutTrue t = false → emit [t] = .ok [] ∨ emit [t] = .error .extraKeys) := by
+  have h1 : filterOutput t = .ok none ∨ filterOutput t = .error .extraKeys := by
+    rw [C11_filterOutput_eq t, hh]
+    cases filterFails t
+    · left; rfl
+    · right; rfl
+  refine ⟨h1, ?_, by simp [renderDoc, hh], ?_⟩
+  · intro r h
+    rcases h1 with h1 | h1 <;> rw [h1] at h <;> cases h
+    rfl
+  · intro hw hm
+    rw [((C11_root_fallback_spec t hw).1 hm).2.2]
+    rcases h1 with h1 | h1 <;> rw [h1]
+    · left; rfl
+    · right; rfl
+
+example : prune c11_ex2 = .map [("l", .list [.int 1, .str "$$z"])] ∧
+    keptPath c11_ex2 [.key "l", .idx 3] = some [.key "l", .idx 1] ∧
+    subtreeAt (prune c11_ex2) [.key "l", .idx 1] = some (.str "$$z") ∧
+    keptPath c11_ex2 [.key "l", .idx 2, .idx 0] = none ∧
+    keptPath c11_ex2 [.key "k", .key "h"] = none ∧ keptPath c11_ex2 [.key "l", .idx 0] = none := by
+  decide
+example : hidden (.list [.int 1, .map [("$output", .bool false)]]) = true ∧
+    emit [.list [.int 1, .map [("$output", .bool false)]]] = .ok [] ∧
+    emit [.list [.int 1, .map [("$output", .bool false), ("x", .int 1)]]] = .error .extraKeys := by
+  decide
 
 end Bkl
